@@ -329,6 +329,10 @@ fn check_book(b: &Spreadsheet, light: bool, tags: &[String], case: &Value, sink:
     }
 }
 
+pub fn patch_pub(dst: &mut Value, src: &Value, path: &str) -> bool {
+    patch(dst, src, path)
+}
+
 /// Copy the value at `path` from `src` into `dst` (or remove it when absent in src).
 fn patch(dst: &mut Value, src: &Value, path: &str) -> bool {
     fn steps(path: &str) -> Vec<String> {
